@@ -1276,6 +1276,11 @@ impl ManageConnection for ServerPool {
                 "bad" => bad, "in_tx" => in_tx, "in_copy" => in_copy,
                 "da" => da, "dirty" => dirty);
         }
+        // A mirror connection has a single user, the mirror task, which replays whatever
+        // the mirrored server receives; its session state is not a reason to drop it.
+        if self.address.role == Role::Mirror {
+            return conn.is_bad();
+        }
         conn.is_bad() || conn.is_unclean()
     }
 }
